@@ -307,6 +307,30 @@ fn live_systematic(rep: &mut Report, known: &Known, port: u16) {
         s.set_read_timeout(Some(std::time::Duration::from_secs(2))).ok();
         Some(s)
     };
+    // a frame longer than the 4096-byte connection buffer, in reads of 4096, cut one byte before its end,
+    // and followed by a second command in the same session (buffer growth and reuse across reads)
+    if let Some(mut s) = connect() {
+        let payload: Vec<u8> = (0..10_000).map(|i| if i % 89 == 7 { b'\r' } else if i % 89 == 8 { b'\n' } else { b'a' + (i % 26) as u8 }).collect();
+        let frames = vec![arr(&[b"ECHO", &payload]), arr(&[b"PING"])];
+        let expect = vec![bulk(&payload), pong.clone()];
+        let stream: Vec<u8> = frames.iter().flat_map(frame_bytes).collect();
+        let n = stream.len();
+        let lay = layout(&frames);
+        for cuts in [vec![4096, 8192], vec![n - 15], vec![1, 4097, n - 1], vec![5000]] {
+            let chunks = split_at(&stream, &cuts);
+            let (got, left) = talk(&mut s, &chunks, expect.len());
+            let cpos = cut_positions(&chunks);
+            rep.case(&format!("live-systematic big {:?}", cuts), nontrivial(&lay, &cpos));
+            rep.count("live_systematic:frame-longer-than-4096");
+            if got != expect || !left.is_empty() {
+                let sig = format!("live-{}", signature(&lay, &cpos));
+                rep.count(&format!("spec_violation:{}", sig));
+                let body = format!("# live connection: ECHO <10000-byte payload> + PING cut at {:?}; expected 2 replies, got {} ({} bytes left undecoded)", cuts, got.len(), left.len());
+                rep.spec_violation(known, &sig, "live server: replies differ from one reply per frame in order", &body);
+                break;
+            }
+        }
+    }
     for (pi, (frames, expect)) in pipelines.iter().enumerate() {
         let stream: Vec<u8> = frames.iter().flat_map(frame_bytes).collect();
         let n = stream.len();
